@@ -3,6 +3,7 @@
 package vault
 
 import (
+	"context"
 	"fmt"
 	"sort"
 	"strings"
@@ -794,7 +795,7 @@ func pickKs(n, max int) []int {
 // ---------------------------------------------------------------- (c) child creation concurrent with tree revocation
 
 func TestVerif_C04_Schedules(t *testing.T) {
-	rec := verifx.NewRecorder("C04", "schedules", "tasks {tree revocation of P} || {create a child under P or under a descendant of P} (|| optionally a lease request with a descendant), interleaved at storage-operation granularity by a generated schedule; linearization rule: if the creation returned a token and the revocation reported success, the child must be dead once both have returned; non-trivial = at least one context switch while both tasks were unfinished")
+	rec := verifx.NewRecorder("C04", "schedules", "tasks {tree revocation of P} || {create a child under P or under a descendant of P} (|| optionally a lease request with a descendant) (|| optionally the renewal, by an operator, of a lease one of the tree's tokens took earlier), interleaved at storage-operation granularity by a generated schedule; linearization rule: if the creation returned a token and the revocation reported success, the child must be dead once both have returned; non-trivial = at least one context switch while both tasks were unfinished")
 	defer rec.Flush()
 	rapid.Check(t, func(rt *rapid.T) {
 		defer recoverWedged(rec)
@@ -809,13 +810,23 @@ func TestVerif_C04_Schedules(t *testing.T) {
 		under := rapid.IntRange(0, depth-1).Draw(rt, "createUnder")
 		withLease := rapid.Bool().Draw(rt, "leaseTask")
 		kind := rapid.SampledFrom([]string{"revoke", "revoke-accessor", "revoke-self"}).Draw(rt, "kind")
+		// a lease taken before the race starts, renewed (by an operator's token) while the tree is being revoked
+		withRenew := rapid.Bool().Draw(rt, "renewTask")
+		var oldLease c04Lease
+		if withRenew {
+			holder := rapid.IntRange(0, depth-1).Draw(rt, "leaseHolder")
+			if !w.lease(holder) {
+				t.Fatalf("harness: no lease for token %d", holder)
+			}
+			oldLease = w.toks[holder].leases[len(w.toks[holder].leases)-1]
+		}
 		sched := verifx.NewSched(w.tc.rec)
 		defer func() {
 			sched.RunToEnd(20 * time.Second)
 			w.tc.rec.Gate = nil
 			w.tc.rec.TaskOf = nil
 		}()
-		var revRes, creRes, leaseRes rr
+		var revRes, creRes, leaseRes, renewRes rr
 		var childID, childAcc string
 		seqStart := w.tc.rec.Seq()
 		sched.Spawn("revoke", func() { revRes = w.revoke(kind, 0) })
@@ -824,6 +835,14 @@ func TestVerif_C04_Schedules(t *testing.T) {
 		})
 		if withLease {
 			sched.Spawn("lease", func() { leaseRes = w.tc.req(logical.ReadOperation, "rb/creds/y", w.toks[depth-1].id, nil) })
+		}
+		if withRenew {
+			// the renewal spends time inside the secrets engine, where no storage operation marks a scheduling point
+			w.hub.renewHook = func(context.Context, *logical.Request) { sched.Park("engine-renew", oldLease.leaseID) }
+			defer func() { w.hub.renewHook = nil }()
+			sched.Spawn("renew", func() {
+				renewRes = w.tc.req(logical.UpdateOperation, "sys/leases/renew", w.tc.root, map[string]any{"lease_id": oldLease.leaseID, "increment": 3000})
+			})
 		}
 		cur, switches := -1, 0
 		err := sched.Run(func(parked []int) int {
@@ -853,7 +872,7 @@ func TestVerif_C04_Schedules(t *testing.T) {
 		}
 		detail := map[string]any{"depth": depth, "create_under": under, "revocation": kind, "revoke_result": revRes.String(), "create_result": creRes.String(), "schedule": trace, "transactional": w.tc.opts.transactional}
 		overlap := switches > 0
-		rec.Case(fmt.Sprintf("switches>0=%v", overlap), overlap, verifx.Digest(depth, under, kind, withLease, sched.Trace), func() any { return detail })
+		rec.Case(fmt.Sprintf("switches>0=%v", overlap), overlap, verifx.Digest(depth, under, kind, withLease, withRenew, sched.Trace), func() any { return detail })
 		if revRes.ok() {
 			w.applyRevoked(kind, 0)
 		}
@@ -925,6 +944,25 @@ func TestVerif_C04_Schedules(t *testing.T) {
 				rec.Violation(rt, sig, detail, "child token created under token %d while the tree of token 0 was being revoked is still usable after both requests returned success (lookup-self=%v backend-reached=%v)", under, alive, reach)
 			}
 			_ = childAcc
+		}
+		if revRes.ok() && withRenew {
+			// whatever the renewal answered and wherever it was overtaken: once the revocation of the tree has reported
+			// success, the lease is gone or due (it may still wait for its turn in the revocation queue)
+			le, err := w.tc.c.expiration.loadEntry(namespace.RootContext(w.tc.ctx), oldLease.leaseID)
+			w.hub.mu.Lock()
+			rv := w.hub.revoked[oldLease.secretID]
+			w.hub.mu.Unlock()
+			detail["renew_result"] = renewRes.String()
+			detail["revocations_of_the_secret_seen_by_the_engine"] = rv
+			// (a lease entry written back after the secret was revoked at the engine is no better: the lease is listed,
+			// looked up and renewed as live under a revoked token)
+			if err == nil && le != nil && le.ExpireTime.After(time.Now().Add(5*time.Second)) {
+				sig := "lease-renewed-during-tree-revoke-survives"
+				if !overlap {
+					sig = "lease-survives-revoke:no-overlap"
+				}
+				rec.Violation(rt, sig, detail, "lease %s of a token of the revoked tree was being renewed while the tree was revoked (renewal answered %v); both requests have returned, the lease is stored with an expiry %s in the future (revocations of its secret seen by the secrets engine: %d)", oldLease.leaseID, renewRes, time.Until(le.ExpireTime).Round(time.Second), rv)
+			}
 		}
 		if revRes.ok() && withLease && leaseRes.ok() && leaseRes.resp != nil && leaseRes.resp.Secret != nil {
 			le, err := w.tc.c.expiration.loadEntry(namespace.RootContext(w.tc.ctx), leaseRes.resp.Secret.LeaseID)
